@@ -284,7 +284,7 @@ class Language(object):
 
                 # Anonymous sources are immediately treated as the given type
                 # (not just a subtype), as it can't be specified anywhere else
-                if previous_token == "-":
+                if previous_token == "-" and isinstance(previous, Source):
                     previous.type = t
 
                 try:
